@@ -6,6 +6,9 @@
 use crate::c03_align::*;
 use crate::common::*;
 use ast_grep_core::matcher::{MatcherExt, PatternNode};
+use ast_grep_core::meta_var::MetaVarEnv;
+use ast_grep_core::verif_hooks::match_tree::match_children_env;
+use std::borrow::Cow;
 use ast_grep_core::meta_var::MetaVariable;
 use mock_ts::K_CALL;
 
@@ -40,18 +43,22 @@ pub fn cut_pattern(cands: &[Leaf; KMAX], k: usize, hole: &[bool; KMAX], ell_from
   }
 }
 
-/// run one cut; returns Err(reason code) on a property violation
+/// run one cut; returns Err(reason code) on a property violation.
+/// The sibling alignment is driven through hook H2 (`match_nodes_impl_recursive`, what
+/// `Pattern::match_node` runs below an `Internal` pattern node whose kind agrees).
 pub fn check_cut(cands: &[Leaf; KMAX], k: usize, hole: &[bool; KMAX], ell_from: usize, s: u8) -> Result<(), u8> {
-  let pat = make_pattern(cut_pattern(cands, k, hole, ell_from), s);
+  let gl = match cut_pattern(cands, k, hole, ell_from) {
+    PatternNode::Internal { children, .. } => children,
+    _ => unreachable!(),
+  };
   let mut src = [b' '; KMAX];
   let d = flat_tree(cands, k, K_CALL, &mut src);
   let g = mk_grep(as_str(&src, k), d);
+  let mut env = Cow::Owned(MetaVarEnv::new());
   let res = (|| {
-    let nm = match pat.match_node(g.root()) {
-      Some(nm) => nm,
-      None => return Err(1),
-    };
-    let env = nm.get_env();
+    if !match_children_env(&gl, &g.root(), &mut env, &strictness_of(s)) {
+      return Err(1);
+    }
     let mut i = 0;
     while i < k && i < ell_from {
       if hole[i] {
@@ -77,10 +84,10 @@ pub fn check_cut(cands: &[Leaf; KMAX], k: usize, hole: &[bool; KMAX], ell_from: 
       }
       std::mem::forget(multi);
     }
-    std::mem::forget(nm);
     Ok(())
   })();
-  std::mem::forget(pat);
+  std::mem::forget(env);
+  std::mem::forget(gl);
   std::mem::forget(g);
   res
 }
@@ -135,7 +142,7 @@ mod proofs {
   macro_rules! cut_harness {
     ($name:ident, $k:expr, $mask:expr, $ell:expr) => {
       #[kani::proof]
-      #[kani::unwind(10)]
+      #[kani::unwind(8)]
       fn $name() {
         cut($k, $mask, $ell);
       }
